@@ -171,6 +171,12 @@ DIRECTED = [
     # the lock is held for longer than one lease after the Lock call (and its context) ended, a second instance waiting for it all the time
     [("request", 1, "L", False, True), ("request", 2, "L", True, True), ("wait", 900), ("release", 1, "L"), ("acquire", 2, "L"), ("wait", 1300),
      ("request", 1, "L", True, True), ("release", 2, "L"), ("acquire", 1, "L"), ("release", 1, "L")],
+    # the holder renews its lease explicitly and keeps the lock for longer than one lease afterwards, a second instance waiting all the time
+    [("request", 1, "L"), ("renew", 1, "L"), ("request", 2, "L", True), ("wait", 1400), ("renew", 1, "L"), ("wait", 900),
+     ("release", 1, "L"), ("acquire", 2, "L"), ("release", 2, "L")],
+    # the explicit renewal overtakes a background renewal that has read the lease token and is on its way to the ring
+    [("request", 1, "L"), ("holdrenew",), ("renew", 1, "L"), ("releaserenew",), ("request", 2, "L", True), ("wait", 900),
+     ("release", 1, "L"), ("acquire", 2, "L"), ("release", 2, "L")],
 ]
 
 
@@ -191,6 +197,13 @@ def _intervals(res):
     return iv, why
 
 
+def _renewal_failed_early(res, inst):
+    """the background renewal of the instance reported a failure less than 0.8 lease after the instance had successfully taken or explicitly renewed
+    the lock: the lease (1 s) was still running, so the failure is not a renewal that came too late (scheduling delay)"""
+    oks = [e["t"] for e in res["events"] if e["i"] == inst and e["kind"] in ("got", "renewed") and not e.get("err")]
+    return any(0 < f - s < 800000 and not any(s < s2 < f for s2 in oks) for i, f in (res.get("renew_failed_at") or []) if i == inst for s in oks)
+
+
 def locks(ck, binary, behaviours, backend="node"):
     lines = [{"steps": b, "ttlms": 1000} for b in behaviours]
     recs = ck.drive(binary, ["locks", backend, "8"], input_lines=lines, timeout=900)
@@ -207,6 +220,11 @@ def locks(ck, binary, behaviours, backend="node"):
                 ck.violation("C49:lock:clobbers-value", "%s; behaviour=%s" % (msg, json.dumps(b)), {"kind": "locks", "steps": b, "backend": backend})
             else:
                 raise vf.Infra("lock behaviour could not be executed: %s" % msg)
+        for inst in sorted({i for i, _ in (res.get("renew_failed_at") or [])}):
+            if _renewal_failed_early(res, inst):
+                ck.violation("C49:lock:renewal-fails-while-lease-runs", "instance %d holds lock and its background renewal fails although less than 0.8 of the lease "
+                             "had passed since it took / explicitly renewed the lock; behaviour=%s events=%s failures(us)=%s"
+                             % (inst, json.dumps(b), json.dumps(res["events"]), res.get("renew_failed_at")), {"kind": "locks", "steps": b, "backend": backend})
         iv, why = _intervals(res)
         obs.append({"iv": iv})
         meta.append((i, b, res, why))
@@ -225,7 +243,7 @@ def locks(ck, binary, behaviours, backend="node"):
             x, y = ov[0][0] - 1, ov[0][1] - 1
             iv = obs[j]["iv"]
             first = x if iv[x]["from"] <= iv[y]["from"] else y
-            if iv[first]["i"] in (res.get("renew_failed") or []):
+            if iv[first]["i"] in (res.get("renew_failed") or []) and not _renewal_failed_early(res, iv[first]["i"]):
                 # the first holder lost its lease (its renewal failed, e.g. scheduling delay > TTL): the statement allows the take-over
                 ck.notes.append("behaviour %d: holder %d failed to renew its lease; overlap not judged" % (i, iv[first]["i"]))
                 ck.extra["lock_behaviours_inconclusive"] = ck.extra.get("lock_behaviours_inconclusive", 0) + 1
@@ -240,7 +258,8 @@ def locks(ck, binary, behaviours, backend="node"):
 
 
 def _steps(b):
-    return [{"a": "wait", "i": 0, "n": "", "ms": s[1]} if s[0] == "wait" else
+    return [{"a": "wait", "i": 0, "n": "", "ms": s[1]} if s[0] == "wait" else {"a": "renew", "i": s[1], "n": s[2]} if s[0] == "renew" else
+            {"a": s[0], "i": 0, "n": ""} if s[0] in ("holdrenew", "releaserenew") else
             {"a": s[0], "i": s[1], "n": s[2], "busy": bool(len(s) > 3 and s[3]), "cc": bool(len(s) > 4 and s[4])} for s in b]
 
 
